@@ -29,7 +29,10 @@ ASSUMPTIONS = [
     'an iterative Levenberg-Marquardt run (scipy curve_fit, default ftol=xtol=1e-8; measured 3e-9)',
     'same-family reproduction is only demanded where the data determine the fit: every NASA-9 segment holds >= 7 '
     'data points and, for piecewise data, the fitted break equals the generating break',
-    'StatMech sources: error thresholds per (family, window class) = 5 x the largest error on the unchanged tree',
+    'StatMech sources: |dCp/R| <= factor(n_T) x E* + 1e-6, E* = residual of an independent least-squares fit of the '
+    'family form to the source on the same segments; factor = 5 x the largest ratio seen for NASA-7/Shomate on the '
+    'unchanged tree (50 / 12 / 7 for n_T = 15 / 50 / 200); H and S may deviate from the source by what the observed Cp error '
+    'and the anchor allow (|dH/RT| <= sup|dCp| |T-T_ref|/T, |dS/R| <= sup|dCp| |ln(T/T_ref)|)',
     'user-supplied T_mid candidates lie strictly inside the window and leave >= 5 data points on each side',
     'from_model reference temperatures are the documented ones: window mean (Nasa, Shomate), T_low (Nasa9)',
 ]
@@ -90,11 +93,16 @@ SPECIES_C = ['constCp4', 'constCp05']
 SPECIES_D = ['elec_only', 'empty']
 SPECIES = SPECIES_B + SPECIES_C + SPECIES_D
 
-# thresholds for StatMech sources: (family, window class) -> (dCp/R, dH/RT, dS/R); filled from a
-# calibration run on the unchanged tree (x5, floor 1e-6); see notes/C03.md
-TRACK_TOL = {
-}
+# StatMech sources: "the small error expected of the polynomial form" is measured, not tabulated:
+# E* = sup-norm residual of an independent least-squares fit of the family's Cp basis to the source
+# model on a dense lattice of every segment the fitted object has (numpy lstsq on scaled columns).
+# The fitted object may be worse than E* by the factor below (it sees only n_T points per segment),
+# = 5 x the largest ratio observed on the unchanged tree for NASA-7 and Shomate at that n_T
+# (9.3 / 2.2 / 1.4), plus an absolute floor for sources the form represents exactly.
+TRACK_FACTOR = {15: 50.0, 50: 12.0, 200: 7.0}
 TRACK_FLOOR = 1e-6
+BASIS = {'N7': [0, 1, 2, 3, 4], 'N9': [-2, -1, 0, 1, 2, 3, 4], 'SH': [0, 1, 2, 3, -2]}
+N_DENSE = 60
 
 PLANNED_TAGS = [
     'n7:T_ref<T_mid', 'n7:T_ref==T_mid', 'n7:T_ref>T_mid',
@@ -120,15 +128,8 @@ def _frac(win, f):
     return win[0] + f * (win[1] - win[0])
 
 
-def _win_class(win):
-    r = win[1] / win[0]
-    if r <= 2.2:
-        return 'ratio<=2.2'
-    if r <= 4.1:
-        return 'ratio<=4.1'
-    if r <= 10.5:
-        return 'ratio<=10.5'
-    return 'ratio>10.5'
+DEFAULT_VECTOR = {'N7': ('T_ref<T_mid', 'single', 'none', None), 'N9': ('segment 0', 'single', 'none', None),
+                  'SH': ('n/a', 'single', 'n/a', 'J/mol/K')}
 
 
 def _ref_values(case):
@@ -368,7 +369,7 @@ def _eval_data_case(case, ctx):
     # (the choice depends on the Cp data only, so a preliminary fit anchored at T_low reveals it)
     if fam == 'N9':
         planned = _n9_expected_breaks(case)
-    elif fam == 'N7':
+    elif fam == 'N7' and case['tref'].startswith('mid'):
         pre = _fit_data(case, T, CpoR, win[0], href, sref)
         ctx.trace()
         planned = _breaks_of(fam, pre)
@@ -388,8 +389,7 @@ def _eval_data_case(case, ctx):
         ctx.tag('n9:T_ref ' + ('at break' if br == 'at break' else 'in ' + br))
     key = dict(case)
     if ctx.state(('data', key)):
-        if br not in ('T_ref<T_mid', 'segment 0', 'n/a') or _source_kind(case) != 'single' \
-                or case['tmid'] not in ('none', 'n/a'):
+        if (br, _source_kind(case), case['tmid'], case.get('units')) != DEFAULT_VECTOR[fam]:
             ctx.nontrivial(('data', key))
     _common_clauses(fam, obj, T, T_ref, href, sref, sig, case, ctx)
     # same-family reproduction, where the data determine the fit
@@ -496,6 +496,26 @@ def _model_lattice(name, model, pts):
     return a[:, 0], a[:, 1], a[:, 2]
 
 
+_BEST_CACHE = {}
+
+
+def _best_form_error(fam, name, model, edges):
+    """Sup-norm residual of an independent least-squares fit of the family's Cp form to the source
+    model, segment by segment (the best the form can be expected to do with these breaks)."""
+    worst = 0.0
+    for a, b in zip(edges, edges[1:]):
+        key = (fam, name, float(a), float(b))
+        if key not in _BEST_CACHE:
+            T = np.linspace(a, b, N_DENSE)
+            x = T / b
+            A = np.stack([x ** k for k in BASIS[fam]], axis=1)
+            y = np.array([float(np.squeeze(model.get_CpoR(T=float(t)))) for t in T])
+            coef = np.linalg.lstsq(A, y, rcond=None)[0]
+            _BEST_CACHE[key] = float(np.max(np.abs(A @ coef - y)))
+        worst = max(worst, _BEST_CACHE[key])
+    return worst
+
+
 def _sig_model(case):
     return {'fam': case['fam'], 'entry': 'from_model', 'source': _species_kind(case['species']),
             'tmid': case['tmid']}
@@ -524,7 +544,7 @@ def _fit_model(case, model):
 
 
 def track_errors(case):
-    """Calibration helper (not used by the verdict): max |fit - model| of Cp/R, H/RT, S/R."""
+    """Calibration helper (not used by the verdict): (max |dCp/R|, E*) for one from_model case."""
     import warnings
     with warnings.catch_warnings():
         warnings.simplefilter('ignore')
@@ -534,7 +554,9 @@ def track_errors(case):
         pts = _lattice(case['win'], breaks)
         cp, h, s = _walk(obj, pts)
         mcp, mh, ms = _model_lattice(case['species'], model, pts)
-    return float(np.max(np.abs(cp - mcp))), float(np.max(np.abs(h - mh))), float(np.max(np.abs(s - ms)))
+        e_star = _best_form_error(case['fam'], case['species'], model,
+                                  [case['win'][0]] + sorted(breaks) + [case['win'][1]])
+    return float(np.max(np.abs(cp - mcp))), e_star
 
 
 def _eval_model_case(case, ctx):
@@ -579,13 +601,25 @@ def _eval_model_case(case, ctx):
     mcp, mh, ms = _model_lattice(name, model, pts)
     ctx.evals(6 * len(pts))
     ctx.trans(len(pts) - 1)
-    tol = TRACK_TOL[(fam, _win_class(win))]
-    ctx.close('StatMech source: Cp/R tracked within the window-class threshold', cp, mcp, sig, case,
-              rtol=0.0, atol=tol[0])
-    ctx.close('StatMech source: H/RT tracked within the window-class threshold', h, mh, sig, case,
-              rtol=0.0, atol=tol[1])
-    ctx.close('StatMech source: S/R tracked within the window-class threshold', s, ms, sig, case,
-              rtol=0.0, atol=tol[2])
+    edges = [win[0]] + sorted(breaks) + [win[1]]
+    e_star = _best_form_error(fam, name, model, edges)
+    bound = TRACK_FACTOR[case['n_T']] * e_star + TRACK_FLOOR
+    T = np.array(pts)
+    dcp = np.abs(cp - mcp)
+    # where in its segment the largest Cp error sits (part of the signature)
+    tw = float(T[int(np.argmax(dcp))])
+    seg = min(sum(1 for e in edges[1:-1] if e < tw), len(edges) - 2)
+    f = (tw - edges[seg]) / (edges[seg + 1] - edges[seg])
+    sig_cp = dict(sig, worst_at='low end of a segment' if f <= 0.15 else 'elsewhere in the segment')
+    ctx.close('StatMech source: Cp/R within factor x best error of the polynomial form', cp, mcp, sig_cp,
+              case, rtol=0.0, atol=bound)
+    # H and S: no further from the source than the Cp error and the anchor allow
+    #   |dH/RT| <= sup|dCp| * |T - T_ref| / T ,   |dS/R| <= sup|dCp| * |ln(T/T_ref)|
+    sup = max(bound, float(np.max(dcp)))
+    ctx.close('StatMech source: H/RT error no larger than the Cp error and the anchor allow', h, mh, sig,
+              case, rtol=1.0, atol=0.0, scale=sup * np.abs(T - T_ref) / T + 1e-8 * (1.0 + np.abs(mh)))
+    ctx.close('StatMech source: S/R error no larger than the Cp error and the anchor allow', s, ms, sig,
+              case, rtol=1.0, atol=0.0, scale=sup * np.abs(np.log(T / T_ref)) + 1e-8 * (1.0 + np.abs(ms)))
 
 
 # ------------------------------------------------------------------------------- enumeration
@@ -696,8 +730,9 @@ def _all_cases(part, fam, tier):
     return _data_cases(fam, tier) if part == 'data' else _model_cases(fam, tier)
 
 
-N_SHARDS = {('data', 'N7'): 8, ('data', 'N9'): 8, ('data', 'SH'): 8,
-            ('model', 'N7'): 6, ('model', 'SH'): 10, ('model', 'N9'): 16}
+# shard counts proportional to the measured cost of each part (cases are dealt round-robin)
+N_SHARDS = {('data', 'N7'): 12, ('data', 'N9'): 4, ('data', 'SH'): 3,
+            ('model', 'N7'): 2, ('model', 'SH'): 4, ('model', 'N9'): 9}
 
 
 def shards(tier):
@@ -751,7 +786,7 @@ LEVEL_TEXT = ('Bounded exhaustive exploration of the real fitting code: the comp
               'fitted object is walked over a 101-point lattice plus both neighbours of each break. Anchor, '
               'continuity and bounds are decided on every case, reproduction against closed-form integrals of the '
               'generating polynomials, tracking against the source model.')
-LEVEL_NOTE = ('Finite alphabets (13 windows, n_T 15/50/200, listed sources); StatMech tracking thresholds are '
-              'calibrated per window class on the unchanged tree (x5); Shomate reproduction tolerance 1e-6 because '
+LEVEL_NOTE = ('Finite alphabets (13 windows, n_T 15/50/200, listed sources); StatMech tracking is judged against the '
+              'residual of an independent least-squares fit of the same form (factor 50/12/7 by n_T); Shomate reproduction tolerance 1e-6 because '
               'its Cp fit is iterative; reproduction is not demanded of under-determined NASA-9 segments (< 7 points).')
 TECHNIQUE = 'deviation-bounded product enumeration + lattice walk on the implementation, closed-form reference oracle'
